@@ -19,3 +19,8 @@ CLAIMED["C17"] = dict(
     text="Decides on every path of internal/lossy: reserve (tail CAS) before publish into the reserved slot, capacity test against the real array length, consumer hands over only non-nil loaded slots, clears before delivering/publishing, stops at the first unpublished slot, advances once per element; stripe table/slots written only in a busy region that is always left; expansion copies every stripe before publishing; DrainTo only under the eviction lock; the Add status flows only into the drain-scheduling decision (dropping reads cannot change results). Does not decide loss/duplication freedom over interleavings.",
     note=TB + "Assumes sequential consistency of sync/atomic.",
     ref="DESIGN.md §4 C17")
+CLAIMED["C15"] = dict(
+    technique="static analysis: path counting, must-held lock dataflow, edge-dominance guards and order rules over the hash table's SSA; atomic-access census",
+    text="Decides on every path of internal/hashmap the disciplines a linearizable table rests on: update function exactly once per Compute and never before a retry; callback and all slot/meta/link stores under the root-bucket lock with no unlock in between; resize-in-progress then table-identity re-check before any slot access; all locks released; resize migrates the table reloaded after winning the flag, publishes before clearing the flag, always clears it; lock-free Get uses atomic loads and double-checks the key; meta-before-pointer order; size +1/-1/0 exactly once; Range calls out only unlocked; iterators yield only alive, unexpired nodes. Does not decide linearizability or iteration consistency over schedules.",
+    note=TB + "Assumes sync.Mutex/sync/atomic semantics and immutable node keys.",
+    ref="DESIGN.md §4 C15")
